@@ -2,9 +2,11 @@
 # tools/retest.sh <seed-id e.g. C06-1> <prop> [props...]: re-run checks against an archived seeded change (quick generators only)
 S=$1; shift
 git -C /repo status --short | grep -q . && { echo "/repo not clean"; exit 1; }
+rm -rf /verif/.build/evidence.bak; cp -a /verif/evidence /verif/.build/evidence.bak   # evidence of a run on a mutated tree must never be committed
 git -C /repo apply /verif/seeded/$S/patch.diff || exit 1
 for q in "$@"; do
   echo "== $q vs $S (quick generators, no escalation)"
   VERIF_NO_ESCALATE=1 timeout 1800 /verif/check $q --tier quick 2>&1 | grep -E "VIOLATION|^\[C" | head -4
 done
 git -C /repo checkout -- .
+rm -rf /verif/evidence; mv /verif/.build/evidence.bak /verif/evidence
